@@ -231,6 +231,15 @@ func (l *ledger) begin(id string) {
 	}
 }
 
+// abandon gives up the running case without another look at its values.
+func (l *ledger) abandon() {
+	l.cur = nil
+	l.quiet = false
+	for k := range l.byPtr {
+		delete(l.byPtr, k)
+	}
+}
+
 func (l *ledger) op(kind string, s *spec) {
 	if len(l.ops) < 64 {
 		l.ops = append(l.ops, opRec{kind, s})
